@@ -284,13 +284,14 @@ def _cases(conds):
     return out
 
 
-def homogeneity(e, syms, seed=0):
+def homogeneity(e, syms, seed=0, nonzero=()):
     """Degree k such that e(t*syms) == t**k * e, or None."""
     t = sp.Symbol("_t", positive=True)
     scaled = e.xreplace({s: t * s for s in syms})
+    nz = list(nonzero) + [z.xreplace({s: t * s for s in syms}) for z in nonzero]
     for k in (0, 1, -1, 2, -2, sp.Rational(1, 2)):
         try:
-            ok, _, _ = equal(scaled, t ** k * e, seed)
+            ok, _, _ = equal(scaled, t ** k * e, seed, nonzero=nz)
         except AnalysisError:
             ok = False
         if ok:
